@@ -184,11 +184,17 @@ fn check_cut(c: &CutCase, obs: &mut Obs) -> CheckResult {
         VT::I64 => {
             // i64 extremes are not exactly representable in f64: compare through i128-free path by
             // clamping the logical value (edges are tiny, so only the order relative to them matters)
-            let data: Vec<i64> = c.vals.iter().map(|s| resolve_int(*s, &c.edges, i64::MIN, i64::MAX)).collect();
-            let bins: Vec<i64> = c.edges.iter().map(|e| *e as i64).collect();
+            // the whole configuration is shifted by a base beyond 2^53 in three quarters of the cases:
+            // neighbouring values / edges are then indistinguishable after a conversion to f64, but their
+            // order - and so the enclosing bin - is that of the small offsets
+            let base: i64 = [0, 1 << 53, 1 << 60, -(1 << 61)][(c.nlabels + c.vals.len() + c.edges.len()) % 4];
+            obs.class_if(base != 0, "i64_beyond_2^53");
+            let shift = |v: i64| if v == i64::MIN || v == i64::MAX { v } else { v + base };
+            let data: Vec<i64> = c.vals.iter().map(|s| shift(resolve_int(*s, &c.edges, i64::MIN, i64::MAX))).collect();
+            let bins: Vec<i64> = c.edges.iter().map(|e| *e as i64 + base).collect();
             let labels: Vec<Option<i32>> = (0..c.nlabels).map(|i| Some(i as i32)).collect();
             let got = run_cut(&data, &bins, &labels, c.right, c.add_bounds, |l| l.map(|x| x as usize));
-            (data.iter().map(|v| Some((*v).clamp(-1_000_000, 1_000_000) as f64)).collect(), got)
+            (data.iter().map(|v| Some(if *v == i64::MIN || *v == i64::MAX { *v } else { *v - base }.clamp(-1_000_000, 1_000_000) as f64)).collect(), got)
         },
     };
     let edges_f: Vec<f64> = match c.vt {
